@@ -84,6 +84,6 @@ ALL = dict(
         design_ref="§4 C19", technique="bounded-exhaustive input enumeration against algebraic laws", engine="enumerator",
         note=NOTE_ENUM + "NaN excluded; value-equal leaves of different dtype count as equal (np.array_equal semantics, as the statement says 'equal shape and equal elements')."),
 )
-READY = ["C01", "C02", "C03", "C11", "C15", "C16", "C17", "C18", "C19"]
+READY = sorted(ALL)
 CHECKS = {k: ALL[k] for k in READY}
 NOT_APPLICABLE = {}
